@@ -78,7 +78,8 @@ def run_property(pid, tier, plan, oracle, level="model_checking", rule="", assum
             tot["outcomes"] += r["outcomes"]
             per[scn["name"]] = {"bound_requested": bound, "bound_completed": r["bound_done"], "schedules": r["schedules"],
                                 "by_bound": r["by_bound"], "distinct_states": r["states"], "distinct_final_outcomes": r["outcomes"],
-                                "max_steps": r["max_steps"], "capped": r["capped"], "verdicts": r["verdicts"]}
+                                "max_steps": r["max_steps"], "capped": r["capped"], "verdicts": r["verdicts"],
+                                "first_observations_not_reproduced": r.get("unreproduced", 0)}
             if r["capped"]:
                 capped.append(scn["name"])
             if r["sched_errors"]:
